@@ -564,6 +564,10 @@ class Engine:
 
     # ------------------------------------------------------------------ calls
     def stub_hit(self, name):
+        if name.startswith('precondition:') or name.startswith('unsafe:'):
+            # obligations of unchecked operations are reported per call site (C18)
+            site = self.callstack[-1].name.split('>::')[-1] if self.callstack else '?'
+            name = '%s @ %s' % (name, site)
         self.stats.stubs[name] = self.stats.stubs.get(name, 0) + 1
 
     def call(self, callee, args):
